@@ -6095,7 +6095,7 @@ static PyObject* hegv(PyObject *self, PyObject *args, PyObject *kwrds)
 #endif
     char uplo = 'L', jobz = 'N';
     char *kwlist[] = {"A", "B", "W", "itype", "jobz", "uplo", "n",
-        "ldA", "offsetA", "offsetB", "offsetW", NULL};
+        "ldA", "ldB", "offsetA", "offsetB", "offsetW", NULL};
 #if 0
     int ispec=1, n2=-1, n3=-1, n4=-1;
     char *name = "zhetrd", *uplol = "L", *uplou = "U";
